@@ -82,8 +82,10 @@ def explore_twins(task):
                 wT = S.build(envT, hist)
                 # frozen world: replay history remembering every frozen instance ever created
                 wF = S.World(envF)
-                ancestors = []
                 G.CB.reset()
+                envF.reset_tables()
+                # frozen instances a "lookup" preparer hands out are frozen instances like any other
+                ancestors = [(fz, snap.canon([fz])) for fz in frozen_instances([envF.ns["FTABLE"]])]
                 for hop in hist:
                     o = S.execute(wF, hop)
                     for fz in frozen_instances(wF.objs[:1]):
@@ -218,11 +220,40 @@ def applicable(rec):
     return True
 
 
+def register_alias_kinds():
+    """C07-local attribute kinds (not in G.ALL_KINDS, so no other check and no reference model sees them):
+    an int-typed Alias of the first attribute `v`, local-override and passthrough; the twin oracle needs
+    no semantics for them"""
+    base = dict(G.KINDS["int"])
+    G.KINDS.setdefault("alias", dict(base, name="al", lit="Alias('v')"))
+    G.KINDS.setdefault("aliaspt", dict(base, name="ap", lit="Alias('v', passthrough=True)"))
+    G.KINDS.setdefault("aliasfb", dict(base, name="af", lit="Alias('missing_target', fallback=3)"))
+
+
+register_alias_kinds()
+
+
+def alias_records():
+    return [
+        G.composite("AliasLocal", [("int", "lit"), ("alias", "lit")]),
+        G.composite("AliasPass", [("int", "lit"), ("aliaspt", "lit")]),
+        G.composite("AliasFallback", [("int", "lit"), ("aliasfb", "lit"), ("nums", "mut")]),
+    ]
+
+
 def main(run):
     from props.c01 import tasks_for
 
     tasks = [t for t in tasks_for(run, "props.c07", PROP) if applicable(t["rec"])]
     d = 2 if run.tier == "quick" else 3
+    for kT, kF in (("leaf", "fleaf"), ("kids", "fkids")):
+        tasks.append({"rec": {"name": "LookupT" + kT, "attrs": [{"kind": kT, "default": "none" if kT == "leaf" else "mut", "lookup": True},
+                                                            {"kind": "int", "default": "lit"}], "opts": {}},
+                      "recF": {"name": "LookupF" + kT, "attrs": [{"kind": kF, "default": "none" if kT == "leaf" else "mut", "lookup": True},
+                                                             {"kind": "int", "default": "lit"}], "opts": {"leaf_is_frozen": True, "frozen": True}},
+                      "depth": d, "tier": run.tier, "max_states": 600})
+    for rec in alias_records():
+        tasks.append({"rec": rec, "depth": d, "tier": run.tier, "max_states": 600, "module": "props.c07", "prop": PROP})
     for kT, kF, nm in (("leaf", "fleaf", "ParentLeaf"), ("kids", "fkids", "ParentKids")):
         for dflt in ("mut", "none"):
             tasks.append({"rec": {"name": nm + dflt + "T", "attrs": [{"kind": "int", "default": "lit"}, {"kind": kT, "default": dflt}], "opts": {}},
